@@ -52,10 +52,25 @@ pub fn check_case(c: &LoopCase) -> Verdict {
             let raw = conv(r.end, r.start, c.frequency);
             // While tuning, a zero reading is stored as one timer precision.
             let raw = if tuned && raw == 0 { c.precision_ps.max(1) as u128 } else { raw };
+            // A stored sample is its reading, a zero one raised to the timer
+            // precision, minus the overhead of the sample loop and of the
+            // tally bookkeeping of the allocator operations inside the
+            // window, raised to the precision again if nothing is left.
+            let model = WindowTally::of(&r.window);
+            let raw = if c.overheads_ps.iter().any(|&x| x != 0) {
+                // The precision is only measured (and non-zero) when the size is tuned.
+                let p = if tuned { c.precision_ps as u128 } else { 0 };
+                let clamp = |x: u128| if x == 0 { p } else { x };
+                let [grow, shrink, alloc, dealloc, _] = model.as_c05();
+                let ov = c.overheads_ps.map(|x| x as u128);
+                let overhead = ov[0] * size as u128 + ov[1] * alloc.0 as u128 + ov[2] * dealloc.0 as u128 + ov[3] * (grow.0 as u128 + shrink.0 as u128);
+                clamp(clamp(raw).saturating_sub(overhead))
+            } else {
+                raw
+            };
             let i = durations.len();
             vensure!(o.view.durations[i] == raw, "recorded-duration", "sample #{i} (round {k}, thread {t}) recorded {} ps, its readings give {raw} ps\ncase: {c:?}", o.view.durations[i]);
             durations.push(raw);
-            let model = WindowTally::of(&r.window);
             if model.equal_realloc > 0 {
                 return Verdict::Inconclusive("equal-size realloc (classification free)".into());
             }
@@ -101,6 +116,9 @@ pub fn check_case(c: &LoopCase) -> Verdict {
     // The run ended while the size was still being tuned.
     let cut = tuned && rounds > 0 && first == rounds - 1 && (0..t_eff).filter_map(|t| tr.round(t, first)).map(|r| conv(r.end, r.start, c.frequency)).max().map(|d| d / (c.precision_ps.max(1) as u128) <= 100).unwrap_or(false);
     classify(format!("n={}{}{}{}{}", if n == 0 { "0" } else if n == 1 { "1" } else if n % 2 == 0 { "even" } else { "odd" }, if tie { "/tie" } else { "" }, if sparse { "/sparse" } else { "" }, if t_eff > 1 { "/T>1" } else { "" }, if cut { "/cut-while-tuning" } else { "" }));
+    if c.overheads_ps.iter().any(|&x| x != 0) {
+        classify("overheads");
+    }
     Verdict::pass((n >= 2 && (tie || n % 2 == 0 || sparse || distinct_allocs)) || (cut && size > 1))
 }
 
@@ -120,8 +138,10 @@ fn case() -> impl Strategy<Value = LoopCase> {
             (c02::alloc_steps(2), c02::alloc_masks(), proptest::option::weighted(0.35, prop_oneof![0u32..=40, 0u32..=400, 0u32..=4000])),
         ),
         (proptest::array::uniform4(prop::bool::weighted(0.4)), proptest::array::uniform4(proptest::option::weighted(0.3, prop_oneof![0u64..=100, any::<u64>()])), prop_oneof![Just(1_000_000_000u64), Just(1_000_000_000_000u64), Just(3_000_000_000u64)], any::<bool>()),
+        // Overheads (sample loop per iteration; per tallied alloc, dealloc, realloc) and a precision, in picoseconds.
+        proptest::option::weighted(0.35, (proptest::array::uniform4(prop_oneof![2 => Just(0u64), 2 => 1u64..=9, 2 => 10u64..=4000]), prop_oneof![Just(0u64), 1u64..=5000])),
     )
-        .prop_map(|((entry, input, output, threads, n, s), (call, skew, benched, first, vary, (gen, (call_mask, thread_mask), max_ns)), (input_counters, const_counters, frequency, const_first))| {
+        .prop_map(|((entry, input, output, threads, n, s), (call, skew, benched, first, vary, (gen, (call_mask, thread_mask), max_ns)), (input_counters, const_counters, frequency, const_first), overheads)| {
             let mut c = LoopCase::basic(entry, input, output);
             c.threads = threads;
             c.sample_count = Some(n);
@@ -150,6 +170,13 @@ fn case() -> impl Strategy<Value = LoopCase> {
             c.max_time = max_ns.map(|ns| (0, ns));
             c.allocs.benched_call_mask = call_mask;
             c.allocs.benched_thread_mask = thread_mask;
+            // Overheads only with an explicit sample size and no time budget
+            // (tuning and the stopping rule are judged elsewhere, with zero overheads).
+            if let (Some((ov, precision)), Some(_)) = (overheads, s) {
+                c.overheads_ps = ov;
+                c.precision_ps = precision;
+                c.max_time = None;
+            }
             c
         })
 }
